@@ -42,6 +42,9 @@ LOAD_ASSUME = ["atomicity of hashmap.Compute sections (C15) and of the calls tab
 PERIODIC = dict(engine="periodic", scale_quick=3, scale_thorough=20, timeout_quick=600, timeout_thorough=3000, model=False)
 LIN = dict(engine="lin", scale_quick=8, scale_thorough=40, timeout_quick=900, timeout_thorough=6000)
 ADDER = dict(engine="adder", scale_quick=3, scale_thorough=30, timeout_quick=600, timeout_thorough=3000)
+MID = dict(engine="mid", scale_quick=10, scale_thorough=100, timeout_quick=600, timeout_thorough=3000, model=False)
+MID_RULE = ("mid engine (implementation oracles): 400 cases per unit of scale, 2-5 rounds each, on caches that are size-bounded (count or weight) and/or expiring (write / access reset): index actions (Set, Invalidate, Compute, a read) made INSIDE a maintenance run of CleanUp or SetMaximum - from the Clock sample expireNodes takes after the write buffer was drained, and from hook point 7 in evictNode between two removals of the pass - so that a node the run is about to expire or evict has been replaced or invalidated while the task saying so is still in the write buffer; "
+            "after explicit CleanUps until the status is idle, at a clock at least two ticks away from every deadline: EstimatedSize = entries iterated = nodes in the table (all alive) = nodes in the deques = nodes in the timer wheel, WeightedSize = their weights, Hottest/Coldest = the entries present, bound respected, OnDeletion events = OnAtomicDeletion events (key, value, cause), each written value present or reported exactly once; long after every deadline an expiring cache is empty")
 TBL = dict(engine="tbl", scale_quick=4, scale_thorough=40, timeout_quick=600, timeout_thorough=3000)
 TBL_RULE = ("tbl engine (the tie between the Coq model of the table's concurrency protocol, HashMapConc.v, and map.go): 60 schedules per unit of scale over 3-7 concurrent Compute (set / delete / add / keep), Get and Range calls on a table "
             "prepared in one of three stages - 121 keys in 32 buckets so that an insert into a full chain must grow the table first; a 64-bucket table emptied to 3 keys so that deletes shrink it (or take the flag and give up); a handful of keys - "
@@ -106,9 +109,9 @@ PROPS = {
                 assumptions=["sequential consistency of sync/atomic", "in the ring engine CAS failures (status Failed) occur only in the free-running part; the stripe engine produces them deterministically", "counters do not wrap (2^64 adds)",
                              "the striped model's rings are abstract (lists of recorded elements): the ring protocol itself is the Ring.v theorem; the two are composed informally",
                              "the critical sections of the striped table (several accesses under the busy lock) are one step each in the model: their only visible write is the last one and the data they read is written only under the lock (mutual exclusion is proved)"]),
-    "C04": dict(engines=[MAINT, SEQ], rule=MAINT_RULE, assumptions=MAINT_ASSUME),
-    "C05": dict(engines=[MAINT], rule=MAINT_RULE, assumptions=MAINT_ASSUME),
-    "C06": dict(engines=[SEQ, MAINT], rule=SEQ_RULE + "; OnDeletion vs OnAtomicDeletion multisets compared at quiescence of every case", assumptions=SEQ_ASSUME),
+    "C04": dict(engines=[MAINT, SEQ, MID], rule=MAINT_RULE + " | " + MID_RULE, assumptions=MAINT_ASSUME),
+    "C05": dict(engines=[MAINT, MID], rule=MAINT_RULE + " | " + MID_RULE, assumptions=MAINT_ASSUME + ["writes inside a maintenance run are tied to the split-maintenance theorem (C05_invariant_mid_maintenance_writes) by implementation oracles, not by model replay"]),
+    "C06": dict(engines=[SEQ, MAINT, MID], rule=SEQ_RULE + "; OnDeletion vs OnAtomicDeletion multisets compared at quiescence of every case | " + MID_RULE, assumptions=SEQ_ASSUME),
     "C07": dict(engines=[MAINT, SEQ], rule=MAINT_RULE + "; in both engines every Overflow removal is checked against the model's total weight and the current maximum", assumptions=MAINT_ASSUME),
     "C13": dict(engines=[MAINT, PERIODIC], rule=MAINT_RULE + "; clock steps include sub-tick, one tick +-1, whole revolutions of every level and 2^52 ns; about 6% of Set/SetIfAbsent calls in expiring configurations are STALE writes: the clock sample is taken, then the clock advances (3 ns .. 2^42 ns) and CleanUp runs, then the write proceeds with the old sample (the two-thread interleaving of the property text, produced deterministically through the Clock interface)"
                                 " | periodic engine (implementation oracle): the harness owns the Clock and fires its ticks (zero, wall-clock and clock-derived tick values); after a tick more than one timer tick past the deadlines, "
